@@ -1,9 +1,9 @@
-CONSTANTS Alphabet <- AQuick
- MaxLen = 4
+CONSTANTS Families = {"free4", "gen", "nop", "db", "incl"}
+ Family <- QuickFamily
  MaxSects = 2
  MaxDepth = 2
  Fixed = {}
 INIT Init
 NEXT Next
-INVARIANTS InvAgrees InvDevsNamed InvLaterPassesAlike InvTable
+INVARIANTS InvAll Dump
 CHECK_DEADLOCK FALSE
